@@ -62,7 +62,8 @@ struct Model {
       case OP_CALL: return st.obj_alive[op.obj];
       case OP_DESTROY_MOCK: return st.obj_alive[op.obj];
       case OP_MOVE_MOCK: return op.obj >= 2 && op.k1 >= 2 && op.obj != op.k1 && st.obj_alive[op.obj] && !st.obj_alive[op.k1];
-      case OP_DESTROY_SEQ: case OP_MOVE_SEQ: case OP_ASSIGN_SEQ: return st.s[op.s1].alive;
+      case OP_ASSIGN_SEQ: if (op.k1 == 1) return op.s1 != op.s2 && st.s[op.s1].alive && st.s[op.s2].alive;  // fall through
+      case OP_DESTROY_SEQ: case OP_MOVE_SEQ: return st.s[op.s1].alive;
       case OP_NEW_WATCHED: return !st.wat_alive[op.obj];
       case OP_DELETE_WATCHED: return st.wat_alive[op.obj];
       case OP_COPY_WATCHED: case OP_MOVECONS_WATCHED: return st.wat_alive[op.obj] && !st.wat_alive[op.k1] && op.obj != op.k1;
@@ -383,7 +384,10 @@ struct Model {
           nonfatal_delivered(o);
         }
         for (auto& e : st.e) if (e.alive && in_seq(e, op.s1)) e.orphan |= (uint8_t)(1u << op.s1);
-        s.alive = op.kind == OP_ASSIGN_SEQ; s.n = 0; for (auto& p : s.pend) p = -1;  // after assignment the name designates a fresh, empty sequence
+        // after assignment from a temporary the name designates a fresh, empty sequence; after assignment from another live sequence
+        // object (k1 == 1) the overwritten sequence is gone for good: the object now IS sequence s2 (the harness renames it), and the
+        // moved-from source object merely stays alive
+        s.alive = op.kind == OP_ASSIGN_SEQ && op.k1 == 0; s.n = 0; for (auto& p : s.pend) p = -1;
         break;
       }
       case OP_MOVE_SEQ: break;
